@@ -28,8 +28,13 @@ CHECKS: dict[str, dict[str, str]] = {
     },
 }
 
+# Only properties whose check has been integrated (patches applied to /repo,
+# quick check green on the unchanged tree) are claimed.
+_INTEGRATED = (VERIF / "harness" / "manifest.d" / "INTEGRATED").read_text().split()
 for _f in sorted((VERIF / "harness" / "manifest.d").glob("*.json")):
-    CHECKS.update(json.loads(_f.read_text()))
+    for _k, _v in json.loads(_f.read_text()).items():
+        if _k in _INTEGRATED:
+            CHECKS[_k] = _v
 
 PENDING_REASON = "check not built yet in this session (planned: see DESIGN.md §13); not claimed until its theorems and correspondence run exist"
 
